@@ -28,6 +28,10 @@ claim("C02", T, "Bounded symbolic model checking of data routing and continuity:
 claim("C16", T, "Bounded symbolic model checking with a drop-counting payload and mirsym's heap model (double free, use after free, out-of-bounds, allocations live at path end): every constructor/destructor path of every collection kind over tuples, arrays, Vec and boxed slices; counters must be exactly 1 and symbolic payload bytes must round-trip at the declared positions.", NOTE, "DESIGN.md section 3 (C16)")
 claim("C17", T, "Bounded symbolic model checking of every non-acquiring operation (Debug of locks, collections and guards via the real Debug impls, accessors, constructors incl. duplicate check, poison flag accessors, get_mut/into_inner/into_child) under every symbolic pre-held pattern by other threads and by the calling thread itself (live guard, running closure): no blocking raw operation, no wait, owner table unchanged, no unmatched release.", NOTE, "DESIGN.md section 3 (C17)")
 
+claim("C01", "symbolic execution of the real acquisition code per thread (mirsym) + one z3 combination query per thread count over the catalogue of wait points; deadlock candidates replayed natively with real OS threads",
+      "Thread-modular bounded model checking: each blocking API of each shape is executed symbolically against an adversarial environment, giving the set of (held locks, awaited lock, mode) wait points; z3 then decides for 2, 3 and 4 threads whether wait points exist that are mutually compatible and mutually blocking (both RwLock wake policies). unsat = no deadlock state in an over-approximation of the reachable states, for every schedule and every number of acquisitions per thread. Single-thread clause: self-wait monitor over seeded A;B;A call sequences.",
+      NOTE, "DESIGN.md section 3 (C01), appendix A")
+
 if __name__ == "__main__":
     m = write()
     print("claimed:", [c["property_id"] for c in m["checks"]])
